@@ -270,6 +270,8 @@ pub enum Op
     PruneDirs,
     /* ... and makes the case's directories again */
     MakeDirs,
+    /* the user puts a directory where a file (a target) is expected */
+    DirAt{ path : String },
 }
 
 impl Op
@@ -303,6 +305,7 @@ impl Op
             Op::Restyle{..} => "restyle-rules-file",
             Op::PruneDirs => "remove-empty-directories",
             Op::MakeDirs => "make-directories",
+            Op::DirAt{..} => "directory-at-target-path",
         }
     }
 
@@ -325,6 +328,7 @@ impl Op
             Op::DeleteRulerDir{ part } => o.set("part", J::Str(format!("{:?}", part))),
             Op::Move{ from, to } => o.set("from", J::s(from)).set("to", J::s(to)),
             Op::PruneDirs | Op::MakeDirs => o,
+            Op::DirAt{ path } => o.set("path", J::s(path)),
             Op::Restyle{ bundled } => o.set("notation", J::s(if *bundled { "directory bundles" } else { "flat paths" })),
             Op::DamageState{ table, pick, keep } => o.set("file", J::Str(if *table { "current_file_states".to_string() } else { format!("history file #{}", pick) }))
                 .set("how", J::Str(match keep { Some(n) => format!("truncated to {} bytes", n), None => "replaced by garbage".to_string() })),
@@ -384,6 +388,13 @@ impl Case
     {
         let prefix = format!("@{}=", key);
         self.dirs.iter().find(|d| d.starts_with(&prefix)).map(|d| d[prefix.len()..].to_string())
+    }
+
+    /* "@dirleaf=<dir>:<member>,<member>": a leaf that is a directory */
+    pub fn dir_leaves(&self) -> Vec<(String, Vec<String>)>
+    {
+        self.dirs.iter().filter_map(|d| d.strip_prefix("@dirleaf=")).filter_map(|d| d.split_once(':'))
+            .map(|(dir, ms)| (dir.to_string(), ms.split(',').map(|m| m.to_string()).collect())).collect()
     }
 
     pub fn ruler_dir_name(&self) -> String
